@@ -72,8 +72,27 @@ Rep(it, s, P, k, acc) ==
        ELSE LET Q == Ends(it.x, 1, s, P)
             IN IF it.inf /\ k >= it.min /\ Q \subseteq acc2 THEN acc2 ELSE Rep(it, s, Q, k + 1, acc2)
 
-Match(pat, s)  == Ends(pat, 1, s, {1}) # {}                         \* re.Pattern.match
-Search(pat, s) == Ends(pat, 1, s, 1..(Len(s) + 1)) # {}             \* re.Pattern.search
+(* cheap necessary conditions evaluated before the matcher proper (they only save time):                     *)
+(* CanStart(pat, i, ch): FALSE only if no match of pat[i..] can begin at a position holding ch;              *)
+(* Anchored(pat): every match begins at position 1.                                                          *)
+RECURSIVE CanStart(_, _, _)
+CanStart(pat, i, ch) ==
+    IF i > Len(pat) THEN TRUE
+    ELSE LET it == pat[i]
+         IN CASE it.t = "lit" -> it.c = ch
+              [] it.t = "set" -> ClassHas(it, ch)
+              [] it.t = "alt" -> \E b \in DOMAIN it.bs : CanStart(it.bs[b], 1, ch)
+              [] it.t = "rep" -> CanStart(it.x, 1, ch) \/ (it.min = 0 /\ CanStart(pat, i + 1, ch))
+              [] OTHER -> CanStart(pat, i + 1, ch)
+RECURSIVE Anchored(_)
+Anchored(pat) == /\ pat # <<>>
+                 /\ \/ pat[1].t = "bol"
+                    \/ (pat[1].t = "alt" /\ \A b \in DOMAIN pat[1].bs : Anchored(pat[1].bs[b]))
+
+Match(pat, s)  == IF s = <<>> THEN Ends(pat, 1, s, {1}) # {}                              \* re.Pattern.match
+                  ELSE CanStart(pat, 1, s[1]) /\ Ends(pat, 1, s, {1}) # {}
+Search(pat, s) == IF Anchored(pat) THEN Match(pat, s)                                     \* re.Pattern.search
+                  ELSE Ends(pat, 1, s, {p \in 1..(Len(s) + 1) : p > Len(s) \/ CanStart(pat, 1, s[p])}) # {}
 
 (* ====================================================================================================== *)
 (* P-LAYER                                                                                                  *)
